@@ -209,21 +209,19 @@ End Loop.
 (* the messages of the log reader under the filters in [p], no maximum *)
 Definition reader_seq (e : env) (p : params) (types needed' : list N) : list DLmsg :=
   filter (read_pass e p) (index_select e p types (existsb (fun t => memN t sys_types) needed')).
-Definition preslice_applied (p : params) (needed' : list N) : bool :=
-  is_some (p_max p) && negb (p_sys p && existsb (fun t => memN t sys_types) needed').
-
 Lemma lastn_nil {A} (k : nat) : lastn k (@nil A) = [].
 Proof. unfold lastn. cbn [length]. destruct (0 - k); reflexivity. Qed.
 
 Lemma read_messages_no_preslice v e p types needed' :
-  v_break_guarded v = true -> preslice_applied p needed' = false ->
+  v_break_guarded v = true -> preslice_applied v p (existsb (fun t => memN t sys_types) needed') = false ->
   read_messages v e p types needed' = limit (p_max p) (reader_seq e p types needed').
 Proof.
-  intros Hg Hp. unfold read_messages, reader_seq, preslice_applied in *.
+  intros Hg Hp. unfold read_messages, reader_seq in *.
   set (sysreq := existsb (fun t => memN t sys_types) needed') in *.
   set (idx := index_select e p types sysreq).
+  rewrite Hp.
   destruct (p_max p) as [n |]; cbn [is_some limit] in *.
-  - rewrite Hp. cbn [negb]. rewrite andb_true_r.
+  - cbn [negb]. rewrite andb_true_r.
     destruct (n <? 0)%Z eqn:En.
     + rewrite loop_deque_eq by (auto using lastn_nil). cbn [app].
       destruct (0 <=? n)%Z eqn:E0; [lia |]. f_equal. lia.
@@ -243,15 +241,18 @@ Proof.
 Qed.
 
 Lemma read_messages_preslice_harmless v e p types needed' :
-  preslice_applied p needed' = true ->
+  preslice_applied v p (existsb (fun t => memN t sys_types) needed') = true ->
   (forall m, In m (index_select e p types (existsb (fun t => memN t sys_types) needed')) -> read_pass e p m = true) ->
   read_messages v e p types needed' = limit (p_max p) (reader_seq e p types needed').
 Proof.
-  intros Hp Hall. unfold read_messages, reader_seq, preslice_applied in *.
+  intros Hp Hall. unfold read_messages, reader_seq in *.
   set (sysreq := existsb (fun t => memN t sys_types) needed') in *.
   set (idx := index_select e p types sysreq) in *.
+  rewrite Hp.
+  assert (Hm : is_some (p_max p) = true).
+  { unfold preslice_applied in Hp. destruct (is_some (p_max p)); [reflexivity | discriminate]. }
   destruct (p_max p) as [n |]; cbn [is_some limit] in *; [| discriminate].
-  cbn [andb] in Hp. rewrite Hp. rewrite andb_false_r.
+  cbn [negb]. rewrite andb_false_r.
   rewrite loop_count by lia. cbn [app]. rewrite app_nil_r.
   rewrite (filter_all _ idx Hall).
   rewrite filter_all by (intros x Hx; apply Hall; eapply subseq_In; [apply pre_slice_sub | exact Hx]).
@@ -528,9 +529,9 @@ Proof.
   change (filter (spec_pass e a p false) ?l) with (filter (read_pass e p) l).
   fold (reader_seq e p types (n0 :: ns)).
   unfold preslice_harmless, diag in Hh. rewrite En, Er in Hh. cbn [fst snd] in Hh.
-  destruct (preslice_applied p (n0 :: ns)) eqn:Ea.
+  destruct (preslice_applied current p (existsb (fun t => memN t sys_types) (n0 :: ns))) eqn:Ea.
   - apply read_messages_preslice_harmless; [exact Ea |].
-    destruct Hh as [Hh | Hh]; [unfold preslice_applied in Ea; congruence |].
+    destruct Hh as [Hh | Hh]; [congruence |].
     intros m Hm. apply length_zero_nil in Hh.
     pose proof (filter_nil_forall _ _ Hh m Hm) as Hf. cbn beta in Hf. destruct (read_pass e p m); [reflexivity | discriminate].
   - apply read_messages_no_preslice; [exact Hg | exact Ea].
@@ -559,13 +560,17 @@ Proof.
   cbn [map find fst snd]. destruct (N.eqb x t) eqn:E; [apply N.eqb_eq in E; subst; reflexivity | exact IH].
 Qed.
 
-Lemma max_messages_semantics e a :
-  v_break_guarded current = true ->
-  a_order a = false -> a_align a = align_none -> (a_numpy a = false \/ a_keep a = true) -> preslice_harmless e a ->
+Definition stored_ok (e : env) (a : args) : Prop :=
+  forall p types ignore n0 ns, norm_args e a = (p, types, ignore) -> reduce_needed p types = n0 :: ns ->
+    read_messages current e p types (n0 :: ns) = spec_messages e a false.
+
+Lemma max_messages_semantics_gen e a :
+  stored_ok e a ->
+  a_order a = false -> a_align a = align_none -> (a_numpy a = false \/ a_keep a = true) ->
   exists r, fresh e a = OutDict r /\ map fst r = types_of e a /\
             forall t d, lookup_data t r = Some d -> d_msgs d = map RFile (of_type t (spec_messages e a false)).
 Proof.
-  intros Hg Ho Hal Hnk Hh. unfold fresh, read, types_of.
+  intros Hst Ho Hal Hnk. unfold fresh, read, types_of.
   destruct (norm_args e a) as [[p types] ignore] eqn:En. cbn [fst snd].
   rewrite (read_fresh_dict current e a p types ignore En Ho).
   destruct (norm_args_facts _ _ _ _ _ En) as (_ & _ & _ & Hmax & Hpa & Hpn & Hpk).
@@ -578,7 +583,7 @@ Proof.
     unfold lookup_data in Hl. destruct (find _ _) as [[x d'] |] eqn:Ef; [| discriminate].
     apply find_some in Ef. destruct Ef as [Hin _]. apply in_map_iff in Hin. destruct Hin as (t' & Ht' & _).
     inversion Ht'; subst. inversion Hl; subst. reflexivity.
-  - rewrite (stored_is_limited e a p types ignore n0 ns Hg En Er Hh).
+  - rewrite (Hst p types ignore n0 ns En Er).
     eexists. split; [reflexivity |]. split.
     + unfold post_process. rewrite Hpa, Hal, N.eqb_refl. destruct (p_numpy p); [rewrite map_map; cbn [fst] |]; rewrite fill_keys; exact H0.
     + intros t d. unfold post_process. rewrite Hpa, Hal, N.eqb_refl.
@@ -598,12 +603,12 @@ Proof.
       * apply Hfill.
 Qed.
 
-Lemma in_order_is_file_order e a :
-  v_break_guarded current = true -> env_ok e -> a_order a = true -> preslice_harmless e a ->
+Lemma in_order_is_file_order_gen e a :
+  stored_ok e a -> env_ok e -> a_order a = true ->
   exists d, fresh e a = OutOrder d /\ d_msgs d = map RFile (spec_messages e a false) /\
             Subseq (spec_messages e a false) (e_log e).
 Proof.
-  intros Hg He Ho Hh. unfold fresh, read, read_gen.
+  intros Hst He Ho. unfold fresh, read, read_gen.
   destruct (norm_args e a) as [[p types] ignore] eqn:En.
   destruct (norm_args_facts _ _ _ _ _ En) as (_ & _ & Hig & _).
   rewrite Ho in *. cbn [orb] in Hig. subst ignore.
@@ -613,7 +618,7 @@ Proof.
     unfold spec_messages, spec_selected. rewrite En, Er, limit_nil. reflexivity.
   - eexists. split; [reflexivity |]. split; [| apply spec_messages_sub; exact He].
     rewrite add_messages_msgs. cbn [empty_data d_msgs app].
-    rewrite (stored_is_limited e a p types true n0 ns Hg En Er Hh). reflexivity.
+    rewrite (Hst p types true n0 ns En Er). reflexivity.
 Qed.
 
 (* file order also means strictly increasing ordinals *)
@@ -660,7 +665,7 @@ Proof.
   pose proof (index_select_sub e p types sysreq He) as Hidx.
   set (idx := index_select e p types sysreq) in *.
   destruct (p_max p) as [n |]; cbn [is_some].
-  - set (applied := true && negb (p_sys p && sysreq)).
+  - set (applied := preslice_applied v p sysreq).
     assert (Hidx' : Subseq (if applied then pre_slice n idx else idx) (e_log e)).
     { destruct applied; [eapply subseq_trans; [apply pre_slice_sub | exact Hidx] | exact Hidx]. }
     set (idx' := if applied then pre_slice n idx else idx) in *.
@@ -695,17 +700,20 @@ Proof.
   - eexists. split; [reflexivity |]. apply Hfin. apply read_messages_sub; [reflexivity | exact He].
 Qed.
 
+Lemma stored_ok_harmless e a : preslice_harmless e a -> stored_ok e a.
+Proof. intros Hh p types ignore n0 ns En Er. apply (stored_is_limited e a p types ignore n0 ns); auto. Qed.
+
 Lemma max_messages_semantics_dict e a :
   a_order a = false -> a_align a = align_none -> (a_numpy a = false \/ a_keep a = true) -> preslice_harmless e a ->
   exists r, fresh e a = OutDict r /\ map fst r = types_of e a /\
             forall t d, lookup_data t r = Some d -> d_msgs d = map RFile (of_type t (spec_messages e a false)).
-Proof. apply max_messages_semantics. reflexivity. Qed.
+Proof. intros Ho Hal Hnk Hh. apply max_messages_semantics_gen; auto using stored_ok_harmless. Qed.
 
 Lemma max_messages_semantics_in_order e a :
   env_ok e -> a_order a = true -> preslice_harmless e a ->
   exists d, fresh e a = OutOrder d /\ d_msgs d = map RFile (spec_messages e a false) /\
             Subseq (spec_messages e a false) (e_log e).
-Proof. apply in_order_is_file_order. reflexivity. Qed.
+Proof. intros He Ho Hh. apply in_order_is_file_order_gen; auto using stored_ok_harmless. Qed.
 
 (* ------------------------------------------------------------------------------------------------ *)
 (** * No source filter requested: no source test *)
@@ -729,3 +737,53 @@ Proof.
   rewrite (no_source_filter_all_sources e a p types ignore m En Hs), Hs.
   unfold norm_args in En. inversion En; subst. cbn [p_p1 p_sys]. reflexivity.
 Qed.
+
+(* ------------------------------------------------------------------------------------------------ *)
+(** * max_messages semantics without side condition (after /repo 638779d) *)
+
+(* every message of a requested type in the log decodes (a CRC-valid message whose payload does not parse is C04's
+   recorded finding; it is a fact about the log, not about the arguments) *)
+Definition all_decode (e : env) (a : args) : Prop :=
+  forall m, In m (e_log e) -> memN (m_type m) (types_of e a) = true -> m_decodes m = true.
+
+Lemma stored_ok_full e a : env_ok e -> all_decode e a -> stored_ok e a.
+Proof.
+  intros He Hd p types ignore n0 ns En Er.
+  unfold spec_messages, spec_selected. rewrite En, Er.
+  destruct (norm_args_facts _ _ _ _ _ En) as (_ & _ & _ & Hmax & _). rewrite <- Hmax.
+  change (filter (spec_pass e a p false) ?l) with (filter (read_pass e p) l).
+  fold (reader_seq e p types (n0 :: ns)).
+  destruct (preslice_applied current p (existsb (fun t => memN t sys_types) (n0 :: ns))) eqn:Ea.
+  - apply read_messages_preslice_harmless; [exact Ea |].
+    unfold preslice_applied in Ea. change (v_preslice_guarded current) with true in Ea. cbv iota in Ea.
+    apply andb_prop in Ea. destruct Ea as [Ea Eb]. apply andb_prop in Ea. destruct Ea as [_ Es].
+    apply andb_prop in Eb. destruct Eb as [Esrc Ep1].
+    apply negb_true_iff in Es, Ep1, Esrc.
+    intros m Hm. unfold index_select in Hm. rewrite Ep1 in Hm. cbn [andb] in Hm.
+    apply filter_In in Hm. destruct Hm as [Hm Hty].
+    assert (Hlog : In m (e_log e)) by (eapply subseq_In; [apply (tfilter_sub e He) | exact Hm]).
+    assert (Htypes : types_of e a = types) by (unfold types_of; rewrite En; reflexivity).
+    unfold read_pass. destruct (p_src p); [discriminate |]. rewrite Ep1.
+    rewrite (Hd m Hlog) by (rewrite Htypes; exact Hty). cbn [andb].
+    destruct (p_sys p) eqn:Esys; [| reflexivity].
+    (* require_system_time alone: the needed types are system-time types, so the pre-slice is not applied *)
+    exfalso. cbn [andb] in Es.
+    assert (Hn0 : In n0 (reduce_needed p types)) by (rewrite Er; left; reflexivity).
+    unfold reduce_needed in Hn0. rewrite Ep1, Esys in Hn0. cbn [andb] in Hn0.
+    apply filter_In in Hn0. destruct Hn0 as [_ Hn0].
+    cbn [existsb] in Es. rewrite Hn0 in Es. discriminate.
+  - apply read_messages_no_preslice; [reflexivity | exact Ea].
+Qed.
+
+Lemma max_messages_semantics_full_dict e a :
+  env_ok e -> all_decode e a ->
+  a_order a = false -> a_align a = align_none -> (a_numpy a = false \/ a_keep a = true) ->
+  exists r, fresh e a = OutDict r /\ map fst r = types_of e a /\
+            forall t d, lookup_data t r = Some d -> d_msgs d = map RFile (of_type t (spec_messages e a false)).
+Proof. intros He Hd. apply max_messages_semantics_gen. apply stored_ok_full; assumption. Qed.
+
+Lemma max_messages_semantics_full_in_order e a :
+  env_ok e -> all_decode e a -> a_order a = true ->
+  exists d, fresh e a = OutOrder d /\ d_msgs d = map RFile (spec_messages e a false) /\
+            Subseq (spec_messages e a false) (e_log e).
+Proof. intros He Hd Ho. apply in_order_is_file_order_gen; auto using stored_ok_full. Qed.
